@@ -141,6 +141,10 @@ func (m *M) callFn(fn *ssa.Function, args []Value, env []Value, retTo ssa.Value,
 		if len(fn.Blocks) == 0 {
 			abortf("encoded function %s has no body (assembly / linkname): needs an intrinsic", name)
 		}
+		if ex.Cfg.Merge[name] && !isDefer {
+			m.setResult(retTo, m.callMerged(fn, args, env))
+			return
+		}
 		m.pushFrame(fn, args, env, retTo, isDefer)
 		return
 	}
@@ -700,4 +704,157 @@ func (m *M) auxKeyOf(owner Value, name string) auxKey {
 		abortf("vaux on non-pointer / nil owner (%T)", owner)
 	}
 	return auxKey{Obj: p.Obj, Path: pathKey(p.Path), Name: name}
+}
+
+
+// callMerged explores every path of a pure, scalar-returning callee on a cloned state and returns
+// ite(pc1, r1, ite(pc2, r2, ...)) to the single calling state. The callee must not write to objects that
+// existed before the call, must not panic and must return bool / integer results.
+func (m *M) callMerged(fn *ssa.Function, args []Value, env []Value) Value {
+	base := m.st
+	sub := base.clone()
+	sub.script, sub.decisions, sub.undo, sub.logging = nil, nil, nil, false
+	sub.Steps0 = sub.Steps
+	fr := newFrame(fn, args, env, nil)
+	sub.Frames = append(sub.Frames, fr)
+	sub.StopDepth = len(sub.Frames)
+	pc0 := len(base.PC)
+	m.ex.mu.Lock()
+	m.ex.FuncsHit[fn.String()]++
+	m.ex.StubHit["merge "+fn.String()]++
+	m.ex.mu.Unlock()
+	local := []*State{sub}
+	type outcome struct {
+		cond *smt.Term
+		res  Value
+	}
+	var outs []outcome
+	for len(local) > 0 {
+		s := local[len(local)-1]
+		local = local[:len(local)-1]
+		mm := &M{ex: m.ex, w: m.w, st: s, local: &local}
+		mm.runState()
+		switch s.Status {
+		case MergedRet:
+			for id, v := range base.Heap {
+				if nv, ok := s.Heap[id]; !ok || !sameValue(v, nv) {
+					abortf("merge of %s: callee modified pre-existing object %d", fn, id)
+				}
+			}
+			if len(s.Nondets) != len(base.Nondets) {
+				abortf("merge of %s: callee created nondet inputs", fn)
+			}
+			outs = append(outs, outcome{smt.And(s.PC[pc0:]...), s.MergeResult})
+		case Dropped:
+		case Panicked, Done:
+			abortf("merge of %s: callee path panicked", fn)
+		case Running:
+			return nil // stopped (deadline)
+		default:
+			abortf("merge of %s: callee path aborted", fn)
+		}
+	}
+	if len(outs) == 0 {
+		panic(dropPath{why: "merged callee has no feasible path"})
+	}
+	mergeVals := func(get func(o outcome) Value) Value {
+		last := get(outs[len(outs)-1])
+		r, ok := last.(*smt.Term)
+		if !ok {
+			abortf("merge of %s: non-scalar result %T", fn, last)
+		}
+		for i := len(outs) - 2; i >= 0; i-- {
+			r = smt.Ite(outs[i].cond, get(outs[i]).(*smt.Term), r)
+		}
+		return r
+	}
+	switch fn.Signature.Results().Len() {
+	case 0:
+		return nil
+	case 1:
+		return mergeVals(func(o outcome) Value { return o.res })
+	}
+	n := fn.Signature.Results().Len()
+	tup := make(TupleV, n)
+	for i := 0; i < n; i++ {
+		i := i
+		tup[i] = mergeVals(func(o outcome) Value { return o.res.(TupleV)[i] })
+	}
+	return tup
+}
+
+// sameValue: cheap identity comparison of immutable values (used to detect heap writes).
+func sameValue(a, b Value) bool {
+	switch x := a.(type) {
+	case *smt.Term:
+		y, ok := b.(*smt.Term)
+		return ok && x == y
+	case *StructV:
+		y, ok := b.(*StructV)
+		return ok && x == y
+	case *ArrayV:
+		y, ok := b.(*ArrayV)
+		return ok && x == y
+	case *MapData:
+		y, ok := b.(*MapData)
+		return ok && x == y
+	case *IterData:
+		y, ok := b.(*IterData)
+		return ok && x == y
+	case *ChanData:
+		y, ok := b.(*ChanData)
+		return ok && x == y
+	case StrV:
+		y, ok := b.(StrV)
+		if !ok || len(x.Bytes) != len(y.Bytes) || x.Len != y.Len {
+			return false
+		}
+		for i := range x.Bytes {
+			if x.Bytes[i] != y.Bytes[i] {
+				return false
+			}
+		}
+		return true
+	case PtrV:
+		y, ok := b.(PtrV)
+		return ok && x.Obj == y.Obj && pathKey(x.Path) == pathKey(y.Path)
+	case SliceV:
+		y, ok := b.(SliceV)
+		return ok && x.Obj == y.Obj && x.Off == y.Off && x.Len == y.Len && x.Cap == y.Cap && x.Nil == y.Nil && pathKey(x.Path) == pathKey(y.Path)
+	case MapV:
+		y, ok := b.(MapV)
+		return ok && x == y
+	case ChanV:
+		y, ok := b.(ChanV)
+		return ok && x == y
+	case IterV:
+		y, ok := b.(IterV)
+		return ok && x == y
+	case IfaceV:
+		y, ok := b.(IfaceV)
+		if !ok {
+			return false
+		}
+		if x.T == nil || y.T == nil {
+			return x.T == nil && y.T == nil
+		}
+		return types.Identical(x.T, y.T) && sameValue(x.V, y.V)
+	case FuncV:
+		y, ok := b.(FuncV)
+		return ok && x.Fn == y.Fn && x.Builtin == y.Builtin && len(x.Env) == len(y.Env)
+	case TupleV:
+		y, ok := b.(TupleV)
+		if !ok || len(x) != len(y) {
+			return false
+		}
+		for i := range x {
+			if !sameValue(x[i], y[i]) {
+				return false
+			}
+		}
+		return true
+	case nil:
+		return b == nil
+	}
+	return false
 }
